@@ -155,8 +155,9 @@ class OQPSKDemodulator(BaseDemodulator):
 
         if noise_var is None:
             # Hard decision: independent decisions for I and Q
-            bits_real = (y_real >= 0).float()  # 1 if positive, 0 if negative
-            bits_imag = (y_imag >= 0).float()  # 1 if positive, 0 if negative
+            # The modulator maps bit 0 to +1 and bit 1 to -1 on each branch
+            bits_real = (y_real < 0).float()  # 1 if negative, 0 if positive
+            bits_imag = (y_imag < 0).float()  # 1 if negative, 0 if positive
 
             return torch.cat([bits_real.reshape(*batch_shape, 1), bits_imag.reshape(*batch_shape, 1)], dim=-1).reshape(*batch_shape[:-1], -1)
         else:
